@@ -15,13 +15,19 @@ FailKinds == {"assert", "nil", "index", "index_empty", "zerodiv", "overflow", "r
               \* the report quotes of the receiver, it is still a report)
               "substring_range_long", "delete_range_long", "insert_range_long", "substring_reversed_long"}
 Positions == {"plain", "inif", "inwhile"}
-LevelKinds == {"fn", "method", "callback"}
+LevelKinds == {"fn", "method", "callback", "rec", "rectail"}
+\* rec / rectail: a function that calls itself twice before it goes on (three activations of one function are open when the
+\* failure happens); `rectail` recurses in tail position (`return self(..)`), `rec` uses the result afterwards.  At most one
+\* such level per chain, and only with the failing statement in plain position (keeps the product small).
+RecKinds == {"rec", "rectail"}
 
 VARIABLES kind, pos, chain, split, done
 vars == <<kind, pos, chain, split, done>>
 
 Init == kind \in FailKinds /\ pos \in Positions /\ chain = <<>> /\ split = 0 /\ done = FALSE
-Extend(k) == ~done /\ Len(chain) < MaxDepth /\ chain' = Append(chain, k) /\ UNCHANGED <<kind, pos, split, done>>
+Extend(k) == ~done /\ Len(chain) < MaxDepth
+             /\ (k \in RecKinds => pos = "plain" /\ \A j \in 1..Len(chain) : chain[j] \notin RecKinds)
+             /\ chain' = Append(chain, k) /\ UNCHANGED <<kind, pos, split, done>>
 Finish(s) == ~done /\ s \in 0..Len(chain) /\ split' = s /\ done' = TRUE /\ UNCHANGED <<kind, pos, chain>>
 Next == (\E k \in LevelKinds : Extend(k)) \/ (\E s \in 0..MaxDepth : Finish(s))
 
@@ -87,6 +93,15 @@ Level(k) ==
            <<LetX(CN(k), FT, Fn(CN(k), <<P("d", "int")>>, "int",
                  IF k = n THEN inner
                  ELSE <<Print(S("in" \o ToString(k))), Let("r", Call(Ref(k + 1, lib), <<V("d")>>)), Print(S("back")), Ret(V("r"))>>), exported)>>
+      [] chain[k] \in RecKinds ->
+           <<LetX(CN(k), FT, Fn(CN(k), <<P("d", "int")>>, "int",
+                 <<Print(S("in" \o ToString(k))),
+                   If(Bin("<", V("d"), I(20)),
+                      IF chain[k] = "rectail" THEN <<Ret(Call(Self, <<Bin("+", V("d"), I(10))>>))>>
+                      ELSE <<Let("rr", Call(Self, <<Bin("+", V("d"), I(10))>>)), Print(S("unwound")), Ret(V("rr"))>>),
+                   Let("d", Bin("%", V("d"), I(10)))>>
+                 \o (IF k = n THEN FailStmts \o <<Ret(I(0))>>
+                     ELSE <<Let("r", Call(Ref(k + 1, lib), <<V("d")>>)), Print(S("back")), Ret(V("r"))>>)), exported)>>
       [] chain[k] = "callback" ->
            <<LetX(CN(k), FT, Fn(CN(k), <<P("d", "int")>>, "int",
                  IF k = n THEN inner
